@@ -435,7 +435,9 @@ func UnmarshalError(r xml.TokenReader) (Error, error) {
 	iter := xmlstream.NewIter(r)
 	for iter.Next() {
 		start, p := iter.Current()
-		if start.Name.Local != "error" {
+		// Anything that is not an element (eg. character data between the
+		// payloads) has no start token.
+		if start == nil || start.Name.Local != "error" {
 			continue
 		}
 
